@@ -171,6 +171,12 @@ RegistryT<ArgsT<TG_, TSL_, TRL_, NCC_, 0, 0, TRO_ HFSM2_IF_SERIALIZATION(, NSB_)
 		{
 			HFSM2_ASSERT(parent.forkId > 0);
 			compoRemains.set(parent.forkId - 1);
+
+			// a later request overrides an earlier one switching an ancestor away
+			Prong& requested = compoRequested[parent.forkId - 1];
+
+			if (requested != parent.prong)
+				requested  = INVALID_PRONG;
 		}
 	}
 }
